@@ -6,5 +6,6 @@ Cyc(n) == {{i, (i % n) + 1} : i \in 1..n}
 Diamond == {{1, 2}, {2, 3}, {3, 4}, {1, 4}, {1, 3}}
 SomeMotifs == {Mo("k3", 1..3, K(3), 1), Mo("k4", 1..4, K(4), 2), Mo("c4", 1..4, Cyc(4), 1), Mo("c5", 1..5, Cyc(5), 3),
                Mo("diamond-hub", 1..4, Diamond, 1), Mo("diamond-rim", 1..4, Diamond, 2), Mo("path", 1..3, {{1, 2}, {2, 3}}, 2),
-               Mo("k5", 1..5, K(5), 1)}
+               Mo("k5", 1..5, K(5), 1),
+               Mo("c4-crossed", 1..4, {{1, 3}, {3, 2}, {2, 4}, {4, 1}}, 1), Mo("path-moved", 1..3, {{1, 2}, {1, 3}}, 2)}
 =============================================================================
